@@ -343,7 +343,6 @@ func (idx *PQIndex) Remove(vector VectorNode) error {
 	}
 	alreadyDeleted := idx.deletedNodes.Contains(id)
 	idx.mu.RUnlock()
-	verifPoint("pq:remove:window")
 
 	// Fast-fail validation outside of write lock
 	if !exists {
